@@ -49,6 +49,7 @@ def parseAtom (t : String) : Option FAtom :=
   | "label" => some .label
   | "nsIndex" => some .nsIndex
   | "valIndex" => some .valIndex
+  | "outIndex" => some .outIndex
   | "keys" => some .keys
   | "objName" => some .objName
   | _ => if t.startsWith "g" then (t.drop 1).toString.toNat?.map FAtom.generic else none
@@ -104,8 +105,12 @@ structure DState where
   sec2    : List Obj := []
   /-- per parent: the output keys it has claimed since the last barrier -/
   claimed : AMap (List Key) := []
-  /-- keys that changed parent without a barrier in between -/
+  /-- keys that changed parent without a barrier in between (flagged cases: ... and whose new parent can have
+      been applied before the old parent released them, see `noteSet`) -/
   unsafeK : List Key := []
+  /-- a fetched collection changed since the last barrier and the transformation fetches: an input can be
+      recomputed out of the order of the input changes -/
+  secDirty : Bool := false
   /-- "sj": fetched keys changed by sec (0) / sec2 (1) since the last barrier, and whether a key was
       changed by both (finding F10 could then lose or garble the join's events) -/
   touched : AMap (List Nat) := []
@@ -117,14 +122,29 @@ structure DState where
   psubs   : AMap FinMap := []
   dsubs   : AMap FinMap := []
 
+/-- another current input claims `k` -/
+def currentByOther (T : Transform) (prim : List Obj) (p k : Key) : Bool :=
+  prim.any (fun q => q.key != p && (claimsOf T q).contains k)
+
+/-- Keys leaving the checked class when input `o` is set.  Unflagged cases (stream `krt`): every key another
+    input has claimed since the last barrier (the discipline of `disciplined_runOK`).  Flagged cases (`krtf6`):
+    the known class F6 exactly - of those keys only the ones whose new parent can be APPLIED before the old
+    parent released them: another input claims the key right now (new parent first, or both in one Reset
+    batch), or a fetched collection changed since the barrier (its event, processed first, recomputes the new
+    parent from the latest inputs).  A move whose old parent released the key in an earlier change is
+    applied in that order by the collection's queue: it stays on the normally compared lines. -/
 def noteSet (d : DState) (o : Obj) : DState :=
   if !d.started then d else
   let cl := claimsOf d.T o
-  let bad := dedupS ((claimBad d.claimed o.key cl).filter (fun k => !d.unsafeK.contains k))
+  let since := claimBad d.claimed o.key cl
+  let since := if d.flagged then since.filter (fun k => d.secDirty || currentByOther d.T d.prim o.key k) else since
+  let bad := dedupS (since.filter (fun k => !d.unsafeK.contains k))
   { d with unsafeK := d.unsafeK ++ bad, claimed := claimAdd d.claimed o.key cl }
 
 def barrier (d : DState) : DState :=
-  { d with claimed := resetClaims d.T d.prim, touched := [] }
+  { d with claimed := resetClaims d.T d.prim, touched := [], secDirty := false }
+
+def isSecOp (op : String) : Bool := op.startsWith "s." || op.startsWith "t."
 
 def primSet (d : DState) (o : Obj) : DState :=
   let d' := noteSet d o
@@ -213,9 +233,11 @@ def answer (d : DState) (u : Bool) (body : DState → String) : String :=
 
 /-- the constant input of the singleton cases (`case ... single1`) -/
 def singletonInput : Obj :=
-  { ns := "n1", name := "s", labels := [("l1", "1")], sel := [("l1", "1")], ref := "n1/x", val := "v1" }
+  { ns := "n1", name := "s", labels := [("l1", "1")], sel := [("l1", "1")], outs := ["k1", "k3"],
+    ref := "n1/x", val := "v1" }
 
 def stepD (d : DState) (toks : List String) : DState × String :=
+  let d := if d.started && !d.T.fetches.isEmpty && isSecOp (toks.headD "") then { d with secDirty := true } else d
   match toks with
   | "case" :: _ :: stream :: t :: rest =>
     match parseTransform t with
